@@ -1,3 +1,4 @@
+import os
 from vf.core import Property, Harness, Unit, REPO
 
 RING_PDU = Unit('ring_pdu', includes=['stubs', REPO + '/bluetoe/bindings/nordic/include'],
@@ -7,16 +8,31 @@ SIZES = {0: 40, 1: 64, 2: 40, 3: 64, 4: 12, 5: 29}
 OVH = {0: 2, 1: 2, 2: 3, 3: 3, 4: 2, 5: 2}
 
 
+def words(length):
+    """all orders of `length` operations (bit i set: operation i is a commit, else a pop) in which no prefix pops more than was committed"""
+    r = []
+    for w in range(1 << length):
+        bal = 0
+        for i in range(length):
+            bal += 1 if (w >> i) & 1 else -1
+            if bal < 0: break
+        else:
+            r.append(w)
+    return r
+
+
+# history length per configuration
+DEPTH = {'quick':    {4: 6, 5: 5, 0: 5, 2: 5, 1: 4, 3: 4},
+         'thorough': {4: 8, 5: 6, 0: 6, 2: 6, 1: 5, 3: 5}}
+
+
 def cases(tier):
     cs = []
-    def sym(cfg, k, drain=2):
-        cs.append({'CFG': cfg, 'K': k, 'DRAIN': drain, 'S0': -1, 'S1': -1, '_unwind': max(k, drain) + 2})
-    if tier == 'quick':
-        for cfg in (4, 5):
-            sym(cfg, 3)
-    else:
-        for cfg in (0, 1, 2, 3, 4, 5):
-            sym(cfg, 6)
+    only = os.environ.get('C18_CFGS')        # debugging aid: restrict the configurations
+    for cfg, length in DEPTH[tier].items():
+        if only and str(cfg) not in only.split(','): continue
+        for w in words(length):
+            cs.append({'CFG': cfg, 'L': length, 'W': w, 'EXTRA': 1, '_unwind': length + 2})
     return cs
 
 
